@@ -421,6 +421,10 @@ static void value_bursts(const BurstCase &c, pbt::Ctx &ctx)
       continue;
     // the very long bursts cost minutes: a few per process are enough (a replay is a process of its own)
     static int hugeRuns = 0, largeRuns = 0;
+    if (k >= (1ll << 32) && !std::is_trivially_copyable<T>::value) {
+      ctx.label("2^32 burst skipped (heap-owning payload: minutes per burst)");
+      continue;
+    }
     if (k >= (1ll << 32) && hugeRuns++ >= 1) {
       ctx.label("2^32 burst skipped (once per process)");
       continue;
